@@ -504,3 +504,14 @@ class DescriptionModifications(FnCheck):
             ex.oblige(st, 'gate_asked_with_the_report_version', z3.BoolVal(False))
         if 'c:group_set' in st.ghost:
             ex.oblige(st, 'version_group_taken_from_the_report', st.ghost['c:group_set'] == Val.ref(self.group.e))
+
+
+# Provider-side obligation the mirror depends on: a description update lists EVERY context state of an updated context
+# descriptor (the consumer drops the ones a report part does not list). Under contract in C02, re-checked here.
+from contracts import C02 as _c02   # noqa: E402
+
+
+@register
+class DescriptionUpdateListsEveryContextState(_c02.UpdateCorrespondingContextStates):
+    id = 'C01.description_update_lists_every_context_state'
+    prop = 'C01'
